@@ -38,7 +38,7 @@ type wsite struct {
 }
 
 // exitsOf counts the ways control can leave the range loop `loop` without the statement just before being drainWalker(ids)
-func undrainedExits(loop *ast.RangeStmt, loopLabel string, ids string) int {
+func undrainedExits(loop *ast.RangeStmt, loopLabel string, ids string, drainedAfterLoop bool) int {
 	n := 0
 	var walkBlock func(list []ast.Stmt, breakTargetsLoop bool)
 	var walkStmt func(s ast.Stmt, prev ast.Stmt, breakTargetsLoop bool)
@@ -85,6 +85,9 @@ func undrainedExits(loop *ast.RangeStmt, loopLabel string, ids string) int {
 				if x.Label != nil && x.Label.Name != loopLabel && !innerLabels[x.Label.Name] {
 					leaves = true // continue of an outer loop abandons this walk
 				}
+			}
+			if leaves && x.Tok == token.BREAK && drainedAfterLoop && (x.Label == nil || x.Label.Name == loopLabel) {
+				leaves = false // control continues right after the loop, where the walker is drained first
 			}
 			if leaves && (prev == nil || !drained(prev)) {
 				n++
@@ -154,14 +157,26 @@ func collectLabels(n ast.Node) map[string]bool {
 	return m
 }
 
-// localClosures: name -> literal for every `name := func(...) {...}` of a unit
-func localClosures(body *ast.BlockStmt) map[string]*ast.FuncLit {
-	m := map[string]*ast.FuncLit{}
+// callee: something the walker channel can be handed to
+type callee struct {
+	params *ast.FieldList
+	body   *ast.BlockStmt
+}
+
+// pkgCallees: the functions ("name") and methods (".name") of the package, filled by walkerSites
+var pkgCallees = map[string]callee{}
+
+// localClosures: name -> callee for every `name := func(...) {...}` of a unit, on top of the package's functions and methods
+func localClosures(body *ast.BlockStmt) map[string]callee {
+	m := map[string]callee{}
+	for k, v := range pkgCallees {
+		m[k] = v
+	}
 	ast.Inspect(body, func(nd ast.Node) bool {
 		if da, ok := nd.(*ast.AssignStmt); ok && da.Tok == token.DEFINE && len(da.Lhs) == 1 && len(da.Rhs) == 1 {
 			if fl, ok := da.Rhs[0].(*ast.FuncLit); ok {
 				if id, ok := da.Lhs[0].(*ast.Ident); ok {
-					m[id.Name] = fl
+					m[id.Name] = callee{fl.Type.Params, fl.Body}
 				}
 			}
 		}
@@ -172,7 +187,7 @@ func localClosures(body *ast.BlockStmt) map[string]*ast.FuncLit {
 
 // consume: how the statements `rest` (those after the walker was created, or the body of a local closure the walker
 // channel was handed to) use the ids channel `ids` and the signal channel `sig`
-func consume(rest []ast.Stmt, ids, sig string, s *wsite, rangesOverWalker *[]*ast.RangeStmt, closures map[string]*ast.FuncLit) {
+func consume(rest []ast.Stmt, ids, sig string, s *wsite, rangesOverWalker *[]*ast.RangeStmt, closures map[string]callee) {
 	// the channel handed to a local closure as its k-th argument: that closure's body is the consumer
 	for _, r := range rest {
 		delegated := false
@@ -181,19 +196,25 @@ func consume(rest []ast.Stmt, ids, sig string, s *wsite, rangesOverWalker *[]*as
 			if !ok || delegated {
 				return true
 			}
-			fid, ok := call.Fun.(*ast.Ident)
-			if !ok {
+			// a local closure f(...), a function of the package f(...) or a method x.f(...)
+			var fname string
+			switch f := call.Fun.(type) {
+			case *ast.Ident:
+				fname = f.Name
+			case *ast.SelectorExpr:
+				fname = "." + f.Sel.Name
+			default:
 				return true
 			}
-			fl, ok := closures[fid.Name]
-			if !ok {
+			fl, ok := closures[fname]
+			if !ok || fname == "drainWalker" {
 				return true
 			}
 			for k, a := range call.Args {
 				if id, ok := a.(*ast.Ident); ok && id.Name == ids {
 					var prm string
 					i := 0
-					for _, f := range fl.Type.Params.List {
+					for _, f := range fl.params.List {
 						for _, n := range f.Names {
 							if i == k {
 								prm = n.Name
@@ -203,7 +224,7 @@ func consume(rest []ast.Stmt, ids, sig string, s *wsite, rangesOverWalker *[]*as
 					}
 					if prm != "" && s.ranges == 0 {
 						sub := wsite{}
-						consume(fl.Body.List, prm, "_", &sub, rangesOverWalker, map[string]*ast.FuncLit{})
+						consume(fl.body.List, prm, "_", &sub, rangesOverWalker, map[string]callee{})
 						s.deferDrain = s.deferDrain || sub.deferDrain
 						s.undrained += sub.undrained
 						s.ranges += sub.ranges
@@ -225,12 +246,18 @@ func consume(rest []ast.Stmt, ids, sig string, s *wsite, rangesOverWalker *[]*as
 			}
 		}
 	}
-	for _, r := range rest {
+	for ri, r := range rest {
 		r0 := r
 		label := ""
 		if ls, ok := r.(*ast.LabeledStmt); ok {
 			label = ls.Label.Name
 			r0 = ls.Stmt
+		}
+		after := false // is the statement right after this one drainWalker(ids)?
+		if ri+1 < len(rest) {
+			if es, ok := rest[ri+1].(*ast.ExprStmt); ok && isCallTo(es.X, "drainWalker", ids) {
+				after = true
+			}
 		}
 		switch y := r0.(type) {
 		case *ast.DeferStmt:
@@ -245,7 +272,7 @@ func consume(rest []ast.Stmt, ids, sig string, s *wsite, rangesOverWalker *[]*as
 				s.ranges++
 				*rangesOverWalker = append(*rangesOverWalker, y)
 				innerLabels = collectLabels(y.Body)
-				s.undrained += undrainedExits(y, label, ids)
+				s.undrained += undrainedExits(y, label, ids, after)
 			}
 		}
 	}
@@ -292,6 +319,18 @@ func walkerSites(src, out string) error {
 	p, err := loadPkg(filepath.Join(src, "accountant"))
 	if err != nil {
 		return err
+	}
+	pkgCallees = map[string]callee{}
+	for _, name := range p.order {
+		u := p.units[name]
+		if u.decl == nil || u.goLit || u.decl.Body == nil {
+			continue
+		}
+		key := u.decl.Name.Name
+		if u.decl.Recv != nil {
+			key = "." + key
+		}
+		pkgCallees[key] = callee{u.decl.Type.Params, u.decl.Body}
 	}
 	var sites []wsite
 	type gw struct {
